@@ -241,14 +241,17 @@ func (p *Path) runBlocks(fr *Frame, b *ssa.BasicBlock, stop *ssa.BasicBlock) Val
 					p.unsupported("non-term condition %T", cv)
 				}
 				if !cond.IsConst() {
-					if fr.ifCount == nil {
-						fr.ifCount = map[ssa.Instruction]int{}
-					}
-					fr.ifCount[in]++
-					if fr.ifCount[in] > p.h.Unwind {
-						p.end("unwind", "unwinding assertion: symbolic branch at %s taken more than %d times", p.where(), p.h.Unwind)
-					}
 					merged, taken := p.decideIf(fr, in, cond, stop)
+					if !merged {
+						// unwinding assertion: counts decided (forced or forked) symbolic branches, not ite-merged ones
+						if fr.ifCount == nil {
+							fr.ifCount = map[ssa.Instruction]int{}
+						}
+						fr.ifCount[in]++
+						if fr.ifCount[in] > p.h.Unwind {
+							p.end("unwind", "unwinding assertion: symbolic branch at %s taken more than %d times", p.where(), p.h.Unwind)
+						}
+					}
 					if merged {
 						next = fr.block // tryMerge positioned us at the join block
 						if next == exitSentinel && stop == nil {
